@@ -10,6 +10,7 @@ import Model.Wire
 import Model.Hop
 import Model.Pool
 import Model.Parse
+import Model.Device
 import Model.Macat
 import Model.Opt
 import Model.Core
@@ -86,6 +87,26 @@ def evalStateless (tag : String) (a : List String) : Option (String × String) :
     -- a chain of n devices is transparent while the connections crossed (n + 1) do not exceed the server's TTL
     -- (Props.C09.deliver_iff along the chain); the test server answers "R:" ++ request
     if natArg n + 1 ≤ natArg ttl then some (toHexD ([0x52, 0x3a] ++ hexArg payload), "delivered") else some ("lost", "over-ttl")
+  | "dev.path", [kind, srv, chain, idw, payload] =>
+    -- a request through a chain of devices with the pipe ids observed on the real sockets (client side first), then
+    -- the raw server's receiver: Model/Device.lean (Props.C09.request_through_devices / server_behind_devices)
+    let pair (x : String) : Nat × Nat := match x.splitOn ":" with | [a, b] => (natArg a, natArg b) | _ => (0, 0)
+    let ds := if chain == "-" then [] else (chain.splitOn ",").map pair
+    let (st, sp) := pair srv
+    let site := if kind == "reqrep" then Generated.hop_xrep else Generated.hop_xrespondent
+    let atServer (w : Bytes) : Option (Bytes × Bytes) :=
+      if kind != "reqrep" && w.length < 4 then none else Hop.recv site st (beEnc 4 sp) w
+    let r := (Device.chainReq site ds (hexArg idw ++ hexArg payload)).bind atServer
+    some (fmtOpt r, if r.isSome then "through" else "dropped-on-the-way")
+  | "dev.back", [n, hdr, reply] =>
+    -- the reply, sent by the raw server with the header it received: routed by its first word, then back through the
+    -- n devices, then split by the client's raw socket (Props.C09.reply_retraces_request)
+    let r := match Device.rawRoute (hexArg hdr) with
+      | none => none
+      | some (_, h') => match Device.chainRep (natArg n) (Device.wire (h', hexArg reply)) with
+        | none => none
+        | some (_, w) => Parse.recv .hdr4 0 w
+    some (fmtOpt r, if r.isSome then "returned" else "lost")
   | "dial.persist", [_, _] => some ("redials", "persist")   -- an open dialer whose attempt failed, however it failed, tries again (Props.C14)
   | "opt.origin", [check] => some (if check == "true" then "refused" else "admitted", "origin")   -- the option in force is the policy applied
   | "opt.after", [_, _] => some ("received", "after")   -- a queue-length change never makes a connected peer's messages unreceivable
